@@ -114,6 +114,24 @@ CHECKS = {
         "class constraint to hold, tight where the construction is tight.",
    note="trusted: the specifications in pv/checks/c08.py (documentation transcription), pv/ref/members.py, pv/ref/sym.py",
    tech="runtime contracts on step calls against a reference specification + concrete executions on real functions"),
+ "C09": dict(cat="exploration", ref="DESIGN 3/C09, 8.1",
+   text="A numeric re-implementation of the small API the examples are written against (points = numpy vectors, declared "
+        "functions = real self-tested members of the declared class, primitive steps = the real operations) is swapped into each "
+        "example module, so the example's own method code runs numerically on real functions from starting points that make the "
+        "initial condition active; for random admissible parameters the performance of many such runs is compared with the value "
+        "the library returns (perf <= bound*(1+1e-4)+1e-7). 64 of the 86 examples are executed this way; the others (free "
+        "leaf variables, Bregman / inexact-prox steps, LMIs) are listed as not simulated in the evidence.",
+   note="sampling of members and starting points: evidence reports the best performance/bound ratio reached per example (1.000 "
+        "for a dozen of them); a bound too small by less than that gap is invisible",
+   tech="differential execution: the modelled method run on real class members vs the returned bound"),
+ "C10": dict(cat="exploration", ref="DESIGN 3/C10",
+   text="Every shipped example is run at its pinned tuple and at random admissible tuples from its documented validity range "
+        "(pv/ref/examples_table.py, transcribed from the docstrings and cross-checked with the test assertions), with Clarabel and "
+        "partly through the MOSEK stand-in; tight => |pepit-theory| <= 1e-3*theory, upper => pepit <= theory*(1+1e-3); the "
+        "complexified variants must return the value of their base example at the same parameters.",
+   note="documented ranges are hand-transcribed (SUSPECTS list in the table documents every restriction); runs whose back-end "
+        "status is not optimal are skipped and counted",
+   tech="runtime oracle over example outputs on sampled documented parameter ranges (reference closed forms shipped with the examples)"),
 }
 NOT_YET = {}
 
